@@ -31,8 +31,8 @@ def rand_td(rng, family=None):
 
     def pause():
         if dy:
-            return str(Decimal(rng.randrange(1, 64)) / Decimal(2 ** rng.randrange(0, 6)))
-        return rng.choice(["0.5", "1", "0.133", "2.25", "0.001", "10"])
+            return str(Decimal(rng.randrange(1, 64)) / Decimal(2 ** rng.choice([0, 1, 2, 3, 4, 5, 12, 14])))       # down to 1/16384 s
+        return rng.choice(["0.5", "1", "0.133", "2.25", "0.001", "10", "0.0005", "0.00075", "0.000001", "1e-4"])      # any positive length, however short
 
     def warplen():
         if dy:
